@@ -21,7 +21,8 @@ RULE = ("Hypothesis draws scalar recipes biased to where a degree claim can be w
         "must be a polynomial of degree <= d: exact polynomial expansion over Fractions when the recipe is in "
         "the polynomial fragment, otherwise vanishing (d+1)-th forward differences along 3 rational lines "
         "(exact Fractions for rational recipes, float with a 1e-6 relative threshold otherwise).  "
-        "Non-trivial = finite degree reported, >= 1 variable, >= 2 operator/reduction nodes.")
+        "Non-trivial = finite degree reported, >= 1 variable, >= 2 operator/reduction nodes."
+        '  Also: sub-expressions may be classified before the whole (cache state), parameters are updated after the first classification, and reductions over heterogeneous vector expressions (element degrees differ, highest not first) are generated on purpose.')
 BUDGET = {"quick": {"workers": 16, "examples": 400}, "thorough": {"workers": 16, "examples": 10000}}
 ASSUMPTIONS = ["a non-polynomial that is polynomial along three random rational lines is not detected (measure zero)"]
 MANIFEST = {
